@@ -5,8 +5,11 @@ the hasher, all data chunks, nothing else), where the storage index and the
 read-cap key come from, which branch picks a random key, and the literal-file
 routing (threshold, comparison, data embedded, no server contact), the position of the
 file handle when the data reads start, the independence of the hashes behind
-the cap from the share placement, and the way the configured defaults reach the
-attributes the key derivation reads (DESIGN.md section 5, C05)."""
+the cap from the share placement, the way the configured defaults reach the
+attributes the key derivation reads, the provenance of every key the uploadables
+deliver or remember (only the digest of this upload, no memo shared between
+uploadables) and the way the file size is measured (on the handle itself, not from
+file-system metadata of an unflushed handle) (DESIGN.md section 5, C05)."""
 from sa.h import *
 
 EXPLANATION = (
@@ -43,13 +46,31 @@ EXPLANATION = (
     "set_default_encoding_parameters (of every uploadable of the FileHandle family) from default_params['k' / 'n' / "
     "'max_segment_size'], with attribute names computed in loops over constant sequences / setattr / __dict__ evaluated, "
     "on a path that is taken for the keys of client.DEFAULT_ENCODING_PARAMETERS, and Uploader.upload hands over what "
-    "get_encoding_parameters() returned (attribute names that cannot be evaluated statically give an analysis error). "
+    "get_encoding_parameters() returned (attribute names that cannot be evaluated statically give an analysis error); "
+    "(10) every key method of the FileHandle family (get_encryption_key, _get_encryption_key_convergent, "
+    "_get_encryption_key_random, also when a subclass overrides them) returns on every path succeed(self._key), a call of "
+    "a key method of the family, or a Deferred started by one of these (or the hashing chain itself) on which every later "
+    "callback returns its argument unchanged; every store of self._key (assignment, setattr, __dict__) in the family is "
+    "None, os.urandom(16) or the digest in the hashing callback of (1), and no code of the immutable package plants ._key "
+    "on an uploadable from outside - so no key comes from a cache / table shared between uploadables, whatever it is keyed "
+    "on (a memo not keyed by the contents and the effective k, n, segsize and secret is not a function of them); the "
+    "sibling memo self._all_encoding_parameters is stored only on self, in _got_size, from the 4-tuple just computed, is "
+    "None at class level, and get_all_encoding_parameters returns that memo or the Deferred of the computation; "
+    "(11) the size FileHandle.get_size() delivers and every value stored in self._size in the family is, following locals "
+    "to all their reaching definitions (exception handlers included): <handle>.tell() with the handle at its end on every "
+    "path (after seek(0, SEEK_END) or a read of everything), the result of seek(0, SEEK_END), len() of a read of everything "
+    "from offset 0 or of getvalue() / getbuffer(), the remembered self._size, or file-system metadata (os.fstat / os.stat / "
+    "os.path.getsize / .st_size) only after <handle>.flush() on every path with no write since - or of the file a subclass "
+    "opened read-only itself (FileName), resp. len(data) of the BytesIO(data) it wraps (Data); any other way of computing "
+    "the size gives an analysis error. "
     "Undecided: SHA-256d / AES-CTR behave as functions of their inputs (library), netstring injectivity (unit-tested); "
     "the value of the segment size (min with the file size, rounding to a multiple of k) beyond its dependency on "
     "max_segment_size; that the handle is at offset 0 when the key hashing starts if the first seek(0) is removed "
     "(get_size() leaves it there); that the random / convergent key is cached between the two get_encryption_key() "
     "calls and the encryptor is created once (round-trip, not convergence); argument validation in "
-    "_convergence_hasher_tag; LiteralFileNode.read offset/size slicing.")
+    "_convergence_hasher_tag; LiteralFileNode.read offset/size slicing; that flush() of an arbitrary file-like object really "
+    "writes its buffer through (true for io buffered files); EncryptAnUploadable's own per-instance memos of size and "
+    "parameters (they copy what the uploadable delivered).")
 TECHNIQUE = "static analysis: depends-on and positional provenance, CFG x typestate for the read loop, edge facts, constant folding"
 
 UP = "immutable.upload:"
@@ -62,12 +83,109 @@ MOVING_TAILS = {"read", "readline", "readlines", "readinto", "write", "writeline
 # per-upload placement state of the Encoder: which shares have a bucket writer
 PLACEMENT = ("self.landlords", "self.servermap")
 
+# the methods through which an uploadable of the FileHandle family hands out its encryption key
+KEY_METHODS = ("get_encryption_key", "_get_encryption_key_convergent", "_get_encryption_key_random")
+UPLOADABLE_METHODS = {"get_encryption_key", "get_size", "read", "close", "set_default_encoding_parameters",
+                      "get_all_encoding_parameters", "set_upload_status"}
+# calls that answer from file-system metadata, not from the (possibly buffered) file object
+METADATA_TAILS = {"fstat", "stat", "lstat", "getsize"}
+_REG = ("addCallback", "addErrback", "addBoth", "addCallbacks")
+
 
 def _is_rewind(c):
     """c is <handle>.seek(0) / seek(0, 0) / seek(0, os.SEEK_SET)."""
     return bool(c.args) and isinstance(c.args[0], ast.Constant) and c.args[0].value == 0 and not c.keywords and (
         len(c.args) == 1 or (isinstance(c.args[1], ast.Constant) and c.args[1].value == 0)
         or attr_path(c.args[1]) in ("os.SEEK_SET", "io.SEEK_SET"))
+
+
+def _is_seek_end(c):
+    """c is <handle>.seek(0, 2) / seek(0, os.SEEK_END)."""
+    if not (c.args and isinstance(c.args[0], ast.Constant) and c.args[0].value == 0):
+        return False
+    w = c.args[1] if len(c.args) == 2 else (kwarg(c, "whence") if len(c.args) == 1 else None)
+    if w is None or len(c.args) + len(c.keywords) != 2:
+        return False
+    return (isinstance(w, ast.Constant) and w.value == 2) or attr_path(w) in ("os.SEEK_END", "io.SEEK_END")
+
+
+def _reads_all(c):
+    """c is <handle>.read() / read(-1) / read(None) / readall() / readlines(): leaves the handle at the end."""
+    if c.keywords or len(c.args) > 1:
+        return False
+    if not c.args:
+        return True
+    a = c.args[0]
+    if isinstance(a, ast.UnaryOp) and isinstance(a.op, ast.USub) and isinstance(a.operand, ast.Constant):
+        return a.operand.value == 1
+    return isinstance(a, ast.Constant) and (a.value is None or a.value == -1)
+
+
+def _is_random_key(idx, folder, f, v):
+    """v is os.urandom(16) or hashutil.random_key() (which returns os.urandom(16))."""
+    def urandom16(ff, e):
+        if not (isinstance(e, ast.Call) and call_name(e) == "os.urandom" and len(e.args) == 1 and not e.keywords):
+            return False
+        try:
+            return folder.fold(e.args[0], ff.module, ff.cls) == 16
+        except NotConstant:
+            return False
+    if urandom16(f, v):
+        return True
+    if isinstance(v, ast.Call) and call_tail(v) == "random_key" and not v.args and not v.keywords:
+        hk = idx.func("util.hashutil:random_key")
+        hr = hk.cfg().find(is_return)
+        return bool(hr) and all(urandom16(hk, x.ast.value) for x in hr)
+    return False
+
+
+def _self_attr_values(f, attr):
+    """[(cfg node, value expression or None)] for every store of self.<attr> the function performs itself:
+    assignments, setattr(self, '<attr>', v), self.__setattr__, self.__dict__['<attr>'] = v."""
+    path = "self." + attr
+    out = []
+    fcfg = f.cfg()
+    for n in fcfg.nodes:
+        if n.kind not in ("stmt", "test", "iter", "with"):
+            continue
+        if path in node_stores(n):
+            out.append((n, stored_value(n, path)))
+        for c in node_calls(n):
+            nm = val = None
+            if isinstance(c.func, ast.Name) and c.func.id == "setattr" and len(c.args) == 3 and attr_path(c.args[0]) == "self":
+                nm, val = c.args[1], c.args[2]
+            elif isinstance(c.func, ast.Attribute) and c.func.attr == "__setattr__":
+                if len(c.args) == 2 and attr_path(c.func.value) == "self":
+                    nm, val = c.args
+                elif len(c.args) == 3 and attr_path(c.args[0]) == "self":
+                    nm, val = c.args[1], c.args[2]
+            if isinstance(nm, ast.Constant) and nm.value == attr:
+                out.append((n, val))
+        a = n.ast
+        if n.kind == "stmt" and isinstance(a, ast.Assign):
+            for t in a.targets:
+                if isinstance(t, ast.Subscript) and attr_path(t.value) == "self.__dict__" \
+                        and isinstance(t.slice, ast.Constant) and t.slice.value == attr:
+                    out.append((n, a.value))
+    return out
+
+
+def _own_file_metadata(f, fnm, dn, v, path_expr, on_handle):
+    """Every file-system metadata call in v asks about the file the class itself opened read-only:
+    os.fstat(<handle>.fileno()) or, in __init__, stat / getsize of the very path expression passed to open()."""
+    calls = [x for x in ast.walk(v) if isinstance(x, ast.Call) and call_tail(x) in METADATA_TAILS]
+    if not calls:
+        return False
+    for c in calls:
+        if len(c.args) != 1 or c.keywords:
+            return False
+        a = fnm.resolve(dn, c.args[0])
+        if isinstance(a, ast.Call) and call_tail(a) == "fileno" and on_handle(dn, a):
+            continue
+        if f.name == "__init__" and fnm.norm(dn, a) == fnm.norm(dn, path_expr):
+            continue
+        return False
+    return True
 
 
 def infeasible(n, lab):
@@ -1423,6 +1541,457 @@ def run(ctx: Context):
             fed = [cc for cc in calls_feeding(f, a)] if a is not None else []
             r.require(any(call_tail(cc) == "get_encoding_parameters" for cc in fed), f, f.loc(c),
                       "the uploadable's defaults are %s, not derived from the client's get_encoding_parameters()" % src(f, a))
+
+
+    # -- 10. every key delivered is the digest of this upload; no other source on that path -----------
+    with ctx.rule("C05.10", "R7/R2", "every encryption key an uploadable of the FileHandle family delivers or stores is "
+                  "the digest computed by the hashing callback for this upload (or os.urandom(16)); the memo of the "
+                  "effective encoding parameters is filled per uploadable from the tuple just computed", expected=7) as r:
+        fhc = idx.cls(FH)
+        family = [fhc] + list(idx.subclasses(fhc))
+        kc = idx.func(FH + "._get_encryption_key_convergent")
+        holders = [f for f in [kc] + _descendants(kc) if calls_in_func(f, "convergence_hasher")]
+        if len(holders) != 1 or holders[0] is kc:
+            raise AnchorVanished("callback of FileHandle._get_encryption_key_convergent that calls convergence_hasher")
+        g = holders[0]
+        rk = idx.func(FH + "._get_encryption_key_random")
+        r.site(g, None, "the hashing callback: the only place a convergent key may come from")
+        fam_funcs = [(ci, f) for ci in family for m in ci.methods.values() for f in [m] + _descendants(m)]
+        norms = {}
+
+        def fnorm_of(f):
+            if f.qual not in norms:
+                norms[f.qual] = FlowNorm(f)
+            return norms[f.qual]
+
+        def shown(f, n, v):
+            """the value with a local replaced by its only definition (for the message)"""
+            if isinstance(v, ast.Name):
+                d = sole_def(fnorm_of(f), n, v.id)
+                if d is not None:
+                    return "%s = %s" % (v.id, src(f, d))
+            return src(f, v) if v is not None else "a value that is not a plain assignment"
+
+        # (a) what the key attributes can hold
+        bad_stores = {}
+
+        def key_attr_problems(attr):
+            """stores of self.<attr> in the family whose value is none of: None, the digest (in the hashing
+            callback, C05.1), os.urandom(16) / hashutil.random_key()"""
+            if attr in bad_stores:
+                return bad_stores[attr]
+            out, total = [], 0
+            for (ci, f) in fam_funcs:
+                for (n, v) in _self_attr_values(f, attr):
+                    total += 1
+                    if f.qual == g.qual:
+                        continue                         # C05.1 requires <hasher>.digest() there
+                    vv = fnorm_of(f).resolve(n, v) if (v is not None and n is not None) else v
+                    if isinstance(vv, ast.Constant) and vv.value is None:
+                        continue
+                    if vv is not None and _is_random_key(idx, folder, f, vv):
+                        continue
+                    out.append((f, n, v))
+            bad_stores[attr] = (out, total)
+            return bad_stores[attr]
+
+        # (b) what the key methods return
+        def cb_func(f, t):
+            if isinstance(t, ast.Name):
+                p = f
+                while p is not None:
+                    if t.id in p.nested:
+                        return p.nested[t.id]
+                    p = p.parent
+            elif isinstance(t, ast.Attribute) and attr_path(t.value) == "self":
+                top = f
+                while top.parent is not None:
+                    top = top.parent
+                return top.cls.lookup(t.attr) if top.cls is not None else None
+            return None
+
+        def passes_through(f, t):
+            """the callback returns its argument unchanged on every path"""
+            if isinstance(t, ast.Lambda):
+                ps = [a.arg for a in list(t.args.posonlyargs) + list(t.args.args)]
+                return bool(ps) and isinstance(t.body, ast.Name) and t.body.id == ps[0]
+            cb = cb_func(f, t)
+            if cb is None:
+                return False
+            ps = first_positional_params(cb)
+            if not ps:
+                return False
+            c = cb.cfg()
+            rets = c.find(is_return)
+            return bool(rets) and not c.find(stores(ps[0])) and not reaches_exit_avoiding(c, is_return) \
+                and all(isinstance(n.ast.value, ast.Name) and n.ast.value.id == ps[0] for n in rets)
+
+        def chain_of(e):
+            calls = []
+            while isinstance(e, ast.Call) and isinstance(e.func, ast.Attribute) and e.func.attr in _REG:
+                calls.append(e)
+                e = e.func.value
+            return e, calls
+
+        def is_key_call(e):
+            """self.<key method>() / <class of the family>.<key method>(self) / super().<key method>()"""
+            if not (isinstance(e, ast.Call) and isinstance(e.func, ast.Attribute) and e.func.attr in KEY_METHODS) or e.keywords:
+                return False
+            fv = e.func.value
+            if attr_path(fv) == "self" or (isinstance(fv, ast.Call) and call_tail(fv) == "super"):
+                return not e.args
+            p = attr_path(fv)
+            return bool(p) and len(e.args) == 1 and attr_path(e.args[0]) == "self" \
+                and any(ci.name == p.split(".")[-1] for ci in family)
+
+        def base_problem(f, n, base):
+            """None when the Deferred expression `base` fires with this upload's key"""
+            fnm = fnorm_of(f)
+            if is_key_call(base):
+                return None
+            if isinstance(base, ast.Call) and call_tail(base) == "succeed" and len(base.args) == 1 and not base.keywords:
+                a = fnm.resolve(n, base.args[0])
+                p = attr_path(a) or ""
+                if p.startswith("self.") and p.count(".") == 1:
+                    bad, total = key_attr_problems(p[5:])
+                    if total and (p == "self._key" or not bad):
+                        return None                      # stores of self._key are reported by (a)
+                    return "%s, and %s is %s" % (src(f, base), p, "set from %s in %s" % (
+                        shown(bad[0][0], bad[0][1], bad[0][2]), short(bad[0][0])) if bad else "never set")
+                if _is_random_key(idx, folder, f, a):
+                    return None
+                return "%s with %s" % (src(f, base), shown(f, n, base.args[0]))
+            return src(f, base)
+
+        def deferred_problems(f, n, e):
+            """[] when every result of the Deferred expression e (returned at node n of f) is this upload's key"""
+            base, chain = chain_of(e)
+            allregs = registrations(f)
+            regs = [x for x in allregs if any(x.call is c for c in chain)]
+            probs = []
+            if isinstance(base, ast.Name) and base.id not in f.params:
+                var = base.id
+                regs = [x for x in allregs if x.recv == var or any(x is y for y in regs)]
+                greg = [x for x in regs if isinstance(x.target, ast.Name) and cb_func(f, x.target) is g and x.kind == "cb"]
+                if greg:
+                    # the hashing chain itself: what precedes the hashing callback is C05.1's
+                    regs = regs[regs.index(greg[0]) + 1:]
+                else:
+                    defs = def_exprs(f).get(var, [])
+                    if not defs:
+                        probs.append(var)
+                    for dv in defs:
+                        p = base_problem(f, n, chain_of(dv)[0])
+                        if p:
+                            probs.append("%s = %s" % (var, p))
+            else:
+                p = base_problem(f, n, base)
+                if p:
+                    probs.append(p)
+            for x in regs:
+                ts = [x.target] if x.kind in ("cb", "both") else ([x.target] if x.kind == "pair" else [])
+                for t in ts:
+                    if not passes_through(f, t):
+                        probs.append("%s, whose result replaces the key" % src(f, x.call))
+            return probs
+
+        nret = 0
+        for ci in family:
+            for name in KEY_METHODS:
+                m = ci.methods.get(name)
+                if m is None:
+                    continue
+                if m.node.decorator_list:
+                    raise AnalysisError("%s is decorated (%s): cannot decide what it delivers" % (
+                        short(m), src(m, m.node.decorator_list[0])))
+                mcfg = m.cfg()
+                rets = mcfg.find(is_return)
+                r.site(m, None, "key method: every result is this upload's key")
+                for n in rets:
+                    nret += 1
+                    if n.ast.value is None:
+                        r.violation(m, m.loc(n.ast), "%s returns None instead of the key" % short(m))
+                        continue
+                    for p in deferred_problems(m, n, n.ast.value)[:1]:
+                        r.violation(m, m.loc(n.ast), "%s delivers %s: not the digest of convergence_hasher(k, n, segsize, "
+                                    "secret) over the contents computed for this upload (nor os.urandom(16)); a key taken "
+                                    "from anywhere else (a cache shared between uploadables, a table) is not a function of "
+                                    "the effective encoding parameters, the secret and the contents, so equal files stop "
+                                    "converging and different parameters / contents can share a storage index" % (short(m), p))
+                for w in reaches_exit_avoiding(mcfg, is_return)[:1]:
+                    r.violation(m, m.loc(), "%s can return None instead of the key (path: %s)" % (short(m), w.brief()), w)
+        r.count(nret)
+        bad, total = key_attr_problems("_key")
+        if not total:
+            raise AnchorVanished("no store of self._key in the FileHandle family")
+        r.site("stores of self._key in the FileHandle family: %d" % total)
+        for (f, n, v) in bad:
+            r.violation(f, f.loc(n.ast if n is not None and n.ast is not None else None), "%s sets self._key from %s: "
+                        "the key of an upload must be the digest computed by %s for this upload (or os.urandom(16)); a "
+                        "remembered key is not a function of the effective k / n / segment size, the secret and the "
+                        "contents of this file" % (short(f), shown(f, n, v), short(g)))
+        # the key of an uploadable is not planted from outside
+        for (f, nd) in cg.attr_stores("_key"):
+            recv = attr_path(nd.value)
+            if recv in (None, "self") or not f.module.name.startswith("allmydata.immutable"):
+                continue
+            top = f
+            while top.parent is not None:
+                top = top.parent
+            used = any(isinstance(c.func, ast.Attribute) and attr_path(c.func.value) == recv and c.func.attr in UPLOADABLE_METHODS
+                       for ff in [top] + _descendants(top) for c in calls_in_func(ff, None, into_lambda=True))
+            if used:
+                r.violation(f, f.loc(nd), "%s sets %s._key from outside the uploadable: its key is then not the digest "
+                            "computed for this upload" % (short(f), recv))
+
+        # (c) the sibling memo on that path: the effective encoding parameters
+        bu = idx.func(UP + "BaseUploadable.get_all_encoding_parameters")
+        inner = bu.nested.get("_got_size")
+        if inner is None:
+            raise AnchorVanished("BaseUploadable.get_all_encoding_parameters._got_size")
+        MEMO = "_all_encoding_parameters"
+        inorm = FlowNorm(inner)
+        nmemo = 0
+        for (f, nd) in cg.attr_stores(MEMO):
+            nmemo += 1
+            fcfg = f.cfg()
+            node = next((n for n in fcfg.nodes if n.ast is not None and n.kind == "stmt" and any(x is nd for x in ast.walk(n.ast))), None)
+            v = stored_value(node, attr_path(nd)) if node is not None and attr_path(nd) else None
+            if isinstance(v, ast.Constant) and v.value is None:
+                continue
+            vv = FlowNorm(f).resolve(node, v) if v is not None else None
+            ok = f.qual == inner.qual and attr_path(nd.value) == "self" and isinstance(vv, ast.Tuple) and len(vv.elts) == 4
+            if ok:
+                r.site(f, nd, "parameter memo filled from the tuple just computed")
+            r.require(ok, f, f.loc(nd), "%s = %s in %s: the memo of the effective encoding parameters must be set on this "
+                      "uploadable (self) from the (k, happy, n, segsize) tuple just computed; otherwise a later upload gets "
+                      "parameters - and a convergent key - that do not follow from its own settings, defaults and size" % (
+                          src(f, nd), src(f, v) if v is not None else "?", short(f)))
+        if not nmemo:
+            raise AnchorVanished("store of self.%s" % MEMO)
+        bcls = idx.cls(UP + "BaseUploadable")
+        for ci in [bcls] + list(idx.subclasses(bcls)):
+            for e in ci.attrs.get(MEMO, []):
+                r.require(isinstance(e, ast.Constant) and e.value is None, ci.qual, "src/allmydata/immutable/upload.py",
+                          "class attribute %s.%s is %s, not None: every uploadable starts with remembered parameters" % (
+                              ci.name, MEMO, ast.unparse(e)[:80]))
+        bregs = registrations(bu)
+        iregs = [x for x in bregs if isinstance(x.target, ast.Name) and x.target.id == inner.name and x.kind == "cb"]
+        if not iregs:
+            raise AnchorVanished("_got_size is not registered as a callback in get_all_encoding_parameters")
+        r.site(bu, iregs[0].call, "get_all_encoding_parameters: memo or the Deferred of the computation")
+        bnorm = FlowNorm(bu)
+        for n in bu.cfg().find(is_return):
+            v = n.ast.value
+            base, chain = chain_of(v) if v is not None else (None, [])
+            ok = False
+            if isinstance(base, ast.Name) and base.id == iregs[0].recv:
+                later = [x for x in bregs if x.recv == iregs[0].recv]
+                later = later[later.index(iregs[0]) + 1:]
+                ok = all(x.kind == "eb" or passes_through(bu, x.target) for x in later)
+            elif isinstance(base, ast.Call) and call_tail(base) == "succeed" and len(base.args) == 1 and not chain:
+                ok = attr_path(bnorm.resolve(n, base.args[0])) == "self." + MEMO
+            r.require(ok, bu, bu.loc(n.ast), "get_all_encoding_parameters returns %s: expected the parameters remembered on "
+                      "this uploadable or the Deferred of their computation (%s)" % (src(bu, v), iregs[0].recv))
+        for n in inner.cfg().find(is_return):
+            v = inorm.resolve(n, n.ast.value) if n.ast.value is not None else None
+            ok = (isinstance(v, ast.Tuple) and len(v.elts) == 4) or (v is not None and attr_path(v) == "self." + MEMO)
+            r.require(ok, inner, inner.loc(n.ast), "_got_size delivers %s, not the (k, happy, n, segsize) tuple it computed" % (
+                src(inner, n.ast.value)))
+
+    # -- 11. the size every consumer uses is measured on the handle itself ----------------------------
+    with ctx.rule("C05.11", "R2/R7", "FileHandle.get_size() / self._size: the size is tell() with the handle at its end "
+                  "(or seek(0, SEEK_END) itself, len() of a read of everything from offset 0, an in-memory buffer), "
+                  "never file-system metadata of a handle whose buffered writes were not flushed", expected=2) as r:
+        fhc = idx.cls(FH)
+        family = [fhc] + list(idx.subclasses(fhc))
+        init = idx.func(FH + ".__init__")
+        gs = idx.func(FH + ".get_size")
+        hattr = "self._filehandle"
+        ip = first_positional_params(init)
+        hsrc = [assign_value(n, hattr) for n in init.cfg().find(stores(hattr))]
+        if not hsrc:
+            raise AnchorVanished("FileHandle.__init__ no longer stores %s" % hattr)
+        init_alias = tuple(v.id for v in hsrc if isinstance(v, ast.Name) and v.id in ip)
+        hparam = init_alias[0] if init_alias else (ip[0] if ip else None)
+
+        # handles a subclass creates itself: open(path, <read-only mode>) has no buffered writes, BytesIO(data) is in memory
+        own_handle = {}
+        for sub in family[1:]:
+            si = sub.methods.get("__init__")
+            if si is None:
+                continue
+            for c in calls_in_func(si, "__init__"):
+                off = 1 if call_name(c).endswith("FileHandle.__init__") else 0
+                a = kwarg(c, hparam) if hparam else None
+                if a is None and len(c.args) > off:
+                    a = c.args[off]
+                a = FlowNorm(si).resolve(node_of(si.cfg(), c), a) if a is not None and node_of(si.cfg(), c) is not None else a
+                if isinstance(a, ast.Call) and call_tail(a) == "open" and a.args:
+                    mode = arg(a, 1, "mode")
+                    ro = mode is None or (isinstance(mode, ast.Constant) and isinstance(mode.value, str)
+                                          and not set(mode.value) & set("wax+"))
+                    if ro:
+                        own_handle[sub.qual] = ("open", a.args[0])
+                elif isinstance(a, ast.Call) and call_tail(a) == "BytesIO" and len(a.args) == 1:
+                    own_handle[sub.qual] = ("bytes", a.args[0])
+
+        def analyse(ci, f, aliases=()):
+            """-> (states on entry of every node: {node id: {(pos, flushed)}}, on_handle)"""
+            fcfg = f.cfg()
+            fnm = FlowNorm(f)
+
+            def on_handle(n, c):
+                return isinstance(c.func, ast.Attribute) and (
+                    fnm.norm(n, c.func.value) == hattr or attr_path(c.func.value) in aliases)
+
+            def effect(n, st):
+                pos, fl = st
+                for c in node_calls(n):
+                    if not on_handle(n, c):
+                        continue
+                    t = call_tail(c)
+                    if t == "seek":
+                        pos = "zero" if _is_rewind(c) else ("end" if _is_seek_end(c) else "moved")
+                    elif t in ("read", "readall", "readlines") and _reads_all(c):
+                        pos = "end"
+                    elif t in MOVING_TAILS:
+                        pos = "moved"
+                        if t in ("write", "writelines", "truncate"):
+                            fl = False
+                    elif t == "flush":
+                        fl = True
+                return (pos, fl)
+
+            def tr(n, lab, nxt, st):
+                if infeasible(n, lab):
+                    return None
+                if lab == "exc":
+                    if nxt.kind != "except":
+                        return None
+                    # the statement may have been interrupted anywhere
+                    touched = any(on_handle(n, c) and call_tail(c) in MOVING_TAILS | {"seek"} for c in node_calls(n))
+                    return ("moved" if touched else st[0], st[1] and not touched)
+                if n.kind in ("stmt", "test", "iter", "with"):
+                    return effect(n, st)
+                return st
+            visited, _parent = explore(fcfg, ("unknown", False), tr)
+            states = {}
+            for (nid, st) in visited:
+                states.setdefault(nid, set()).add(st)
+            return states, on_handle, fnm
+
+        def leaves_of(fnm, n, e, depth=0):
+            """[(node, expression)]: what the value of e at node n may be, following locals to all their reaching definitions"""
+            if isinstance(e, ast.Name) and depth < 8:
+                ds = fnm.rd.get(n.id, {}).get(e.id)
+                if not ds:
+                    return [(n, e)]
+                out = []
+                for d in sorted(ds):
+                    dn = fnm.cfg.nodes[d] if d >= 0 else None
+                    v = fnm._def_value(dn, e.id) if dn is not None else None
+                    if v is None:
+                        out.append((dn or n, e))
+                    else:
+                        out.extend(leaves_of(fnm, dn, v, depth + 1))
+                return out
+            if isinstance(e, ast.IfExp):
+                return leaves_of(fnm, n, e.body, depth + 1) + leaves_of(fnm, n, e.orelse, depth + 1)
+            if isinstance(e, ast.Call) and isinstance(e.func, ast.Name) and e.func.id == "int" and len(e.args) == 1 and not e.keywords:
+                return leaves_of(fnm, n, e.args[0], depth + 1)
+            return [(n, e)]
+
+        reported = set()
+
+        analysed = {}
+
+        def check_size_value(ci, f, n, e, what, aliases=()):
+            if f.qual not in analysed:
+                analysed[f.qual] = analyse(ci, f, aliases)
+            states, on_handle, fnm = analysed[f.qual]
+            own = own_handle.get(ci.qual)
+            for (dn, v) in leaves_of(fnm, n, e):
+                key = (f.qual, id(v))
+                if key in reported:
+                    continue
+                reported.add(key)
+                sts = states.get(dn.id, set())
+                others = [c for c in node_calls(dn) if on_handle(dn, c) and call_tail(c) in MOVING_TAILS | {"seek"} and c is not v]
+                if isinstance(v, ast.Constant) and v.value is None:
+                    continue
+                if attr_path(v) == "self._size":
+                    continue
+                hcall = isinstance(v, ast.Call) and on_handle(dn, v)
+                if hcall and call_tail(v) == "tell" and not v.args:
+                    if others:
+                        raise AnalysisError("several operations on the file handle in %s" % src(f, dn.ast))
+                    r.require(bool(sts) and all(p == "end" for (p, _) in sts), f, f.loc(v), "%s: %s is taken while the "
+                              "handle is not known to be at the end of the file (no seek(0, os.SEEK_END) / read of "
+                              "everything before it on every path): the size is not the length of the file" % (what, src(f, v)))
+                    continue
+                if hcall and call_tail(v) == "seek" and _is_seek_end(v):
+                    continue                                 # seek() returns the new absolute position
+                meta = [x for x in ast.walk(v) if (isinstance(x, ast.Call) and call_tail(x) in METADATA_TAILS)
+                        or (isinstance(x, ast.Attribute) and x.attr == "st_size")]
+                if meta:
+                    if own is not None and own[0] == "open" and _own_file_metadata(f, fnm, dn, v, own[1], on_handle):
+                        continue
+                    r.require(bool(sts) and all(fl for (_, fl) in sts), f, f.loc(v), "%s: the size is taken from "
+                              "file-system metadata (%s) of a handle that was not flushed: bytes still in the write buffer of "
+                              "a just-written (spooled) file are not counted, so a small file becomes the empty literal and "
+                              "a larger one is uploaded truncated, under a different key and storage index than its "
+                              "contents; measure on the handle (seek(0, os.SEEK_END) / tell()) or flush() first" % (
+                                  what, src(f, v)))
+                    continue
+                if isinstance(v, ast.Call) and isinstance(v.func, ast.Name) and v.func.id == "len" and len(v.args) == 1:
+                    inner_leaves = leaves_of(fnm, dn, v.args[0])
+                    okall = True
+                    for (rn, rv) in inner_leaves:
+                        if isinstance(rv, ast.Call) and on_handle(rn, rv) and call_tail(rv) in ("getvalue", "getbuffer"):
+                            continue
+                        if own is not None and own[0] == "bytes" and f.name == "__init__" and isinstance(rv, ast.Name) \
+                                and isinstance(own[1], ast.Name) and rv.id == own[1].id and rv.id in f.params \
+                                and not f.cfg().find(stores(rv.id)):
+                            continue                         # len(data) of the BytesIO(data) this class wraps
+                        if isinstance(rv, ast.Call) and on_handle(rn, rv) and call_tail(rv) in ("read", "readall") and _reads_all(rv):
+                            rs = states.get(rn.id, set())
+                            r.require(bool(rs) and all(p == "zero" for (p, _) in rs), f, f.loc(rv), "%s: the length of %s "
+                                      "is used as the size although the handle is not known to be at offset 0 there" % (
+                                          what, src(f, rv)))
+                            continue
+                        okall = False
+                    if okall:
+                        continue
+                if isinstance(v, ast.Attribute) and v.attr == "nbytes" and isinstance(v.value, ast.Call) \
+                        and on_handle(dn, v.value) and call_tail(v.value) == "getbuffer":
+                    continue
+                raise AnalysisError("cannot decide how %s measures the size: %s" % (short(f), src(f, v)))
+
+        # (a) what get_size() delivers
+        r.site(gs, None, "FileHandle.get_size: the measured size")
+        for n in gs.cfg().find(is_return):
+            v = FlowNorm(gs).resolve(n, n.ast.value) if n.ast.value is not None else None
+            if not (isinstance(v, ast.Call) and call_tail(v) == "succeed" and len(v.args) == 1):
+                r.violation(gs, gs.loc(n.ast), "FileHandle.get_size() returns %s, not succeed(<size>)" % src(gs, n.ast.value))
+                continue
+            check_size_value(fhc, gs, n, v.args[0], "FileHandle.get_size() result")
+        for w in reaches_exit_avoiding(gs.cfg(), is_return)[:1]:
+            r.violation(gs, gs.loc(), "FileHandle.get_size() can return None (path: %s)" % w.brief(), w)
+        # (b) what the remembered size can hold
+        nst = 0
+        for ci in family:
+            for m in ci.methods.values():
+                for f in [m] + _descendants(m):
+                    for (n, v) in _self_attr_values(f, "_size"):
+                        nst += 1
+                        if v is None or n is None:
+                            raise AnalysisError("cannot evaluate the value stored in self._size in %s" % short(f))
+                        check_size_value(ci, f, n, v, "self._size in %s" % short(f), init_alias if f.qual == init.qual else ())
+        r.site("stores of self._size in the FileHandle family: %d" % nst)
+        r.count(nst)
+        if not nst:
+            raise AnchorVanished("no store of self._size in the FileHandle family")
 
 
 def _choose(e, opath, is_set, defs, depth=0):
